@@ -137,7 +137,10 @@ def coefs(Y, p):
 
 # ---------------------------------------------------------------------------
 
-def h_qr(ctx, M, N, D, P, full=False, sigma=1):
+def h_qr(ctx, M, N, D, P, full=False, sigma=1, epsilon=None):
+    """epsilon (a user-supplied rank threshold, string of a rational): the last column of the base
+    matrix is of magnitude 1e-16 -- full column rank for the given threshold, "rank deficient" for
+    the default 1e-14"""
     algopy = symx.load_algopy()
     K = min(M, N)
     A0s = []
@@ -150,7 +153,14 @@ def h_qr(ctx, M, N, D, P, full=False, sigma=1):
             Qfull = rot2(ctx, 'p%d' % p, sigma) if M == 2 else rot3(ctx, 'p%d' % p, sigma)
         if N >= M:
             # square or wide: numpy's qr is called on the leading M x M block
-            Rsq = upper(ctx, 'R%d' % p, M, M)
+            Rsq = upper(ctx, 'R%d' % p, M, M, margin=epsilon is None)
+            if epsilon is not None:
+                tiny = (Fraction(1, 10**16) if ctx.mode == 'sym' else 1e-16)
+                for i in range(M):
+                    Rsq[i, M - 1] = Rsq[i, M - 1] * tiny
+                ctx.assume(Rsq[M - 1, M - 1] * Rsq[M - 1, M - 1] > Fraction(1, 10**34))
+                for i in range(M - 1):
+                    ctx.assume(Rsq[i, i] * Rsq[i, i] > Fraction(1, 100))
             A1 = mat(Qfull, Rsq)
             if ctx.mode == 'sym':
                 stubs.register('qr', A1, (Qfull, Rsq))
@@ -167,6 +177,12 @@ def h_qr(ctx, M, N, D, P, full=False, sigma=1):
                     stubs.register('qr', A0, (Qfull, Rf))
             else:
                 Rr = upper(ctx, 'R%d' % p, N, N)
+                if epsilon is not None:
+                    tiny = (Fraction(1, 10**16) if ctx.mode == 'sym' else 1e-16)
+                    for i in range(N):
+                        Rr[i, N - 1] = Rr[i, N - 1] * tiny
+                    for i in range(N - 1):
+                        ctx.assume(Rr[i, i] * Rr[i, i] > Fraction(1, 100))
                 Qr = Qfull[:, :N]
                 A0 = mat(Qr, Rr)
                 if ctx.mode == 'sym':
@@ -175,6 +191,11 @@ def h_qr(ctx, M, N, D, P, full=False, sigma=1):
             pass
         A0s.append(A0)
     X = build_input(ctx, A0s, D, (M, N))
+    if epsilon is not None:
+        # the whole last column of A(t) is of magnitude 1e-16: A(t) = B(t) diag(1, ..., 1e-16)
+        tiny = (Fraction(1, 10**16) if ctx.mode == 'sym' else 1e-16)
+        for d in range(1, D):
+            X[d, :, :, N - 1] = X[d, :, :, N - 1] * tiny
     A = mk_utpm(ctx, algopy, X)
     KQ = M if full else K
     if ctx.opts.get('dirty_out'):
@@ -184,6 +205,8 @@ def h_qr(ctx, M, N, D, P, full=False, sigma=1):
         ctx.fact(Q is outb[0] and R is outb[1], 'the out= buffers are returned')
     elif full:
         Q, R = algopy.qr_full(A)
+    elif epsilon is not None:
+        Q, R = algopy.UTPM.qr(A, epsilon=float(Fraction(epsilon)))
     else:
         Q, R = algopy.qr(A)
     Qd, Rd = plain(Q.data), plain(R.data)
@@ -194,7 +217,15 @@ def h_qr(ctx, M, N, D, P, full=False, sigma=1):
         QtQ = ps_matmul(tr(Qc), Qc, D)
         I = eye_series(KQ, D, ctx)
         for d in range(D):
-            ctx.eq(QR[d], Ac[d], 'QR==A order %d dir %d' % (d, p))
+            if epsilon is not None:
+                # compare column-relative: the last column is of magnitude 1e-16
+                big = (Fraction(10**16) if ctx.mode == 'sym' else 1e16)
+                QRs, As = np.array(QR[d], dtype=object), np.array(Ac[d], dtype=object)
+                QRs[:, N - 1] = QRs[:, N - 1] * big
+                As[:, N - 1] = As[:, N - 1] * big
+                ctx.eq(QRs, As, 'QR==A (last column scaled by 1e16) order %d dir %d' % (d, p))
+            else:
+                ctx.eq(QR[d], Ac[d], 'QR==A order %d dir %d' % (d, p))
             ctx.eq(QtQ[d], I[d], 'QtQ==I order %d dir %d' % (d, p))
             for i in range(KQ):
                 for j in range(min(i, N)):
@@ -607,6 +638,9 @@ def units(tier, seed):
     add('cholesky/1x1/D4,P2', 'h_cholesky', n=1, D=4, P=2)
     add('lu/1x1/D3,P2', 'h_lu', n=1, D=3, P=2, variant='lu')
     add('lu_factor/1x1/D3,P2', 'h_lu', n=1, D=3, P=2, variant='lu_factor')
+    add('qr/2x2/epsilon=1e-40, last column of magnitude 1e-16/D2,P1', 'h_qr', o={'exact_eval': True}, M=2, N=2, D=2, P=1, epsilon='1/' + '1' + '0' * 40)
+    add('qr/3x2/epsilon=1e-40, last column of magnitude 1e-16/D2,P1', 'h_qr', o={'exact_eval': True}, M=3, N=2, D=2, P=1, epsilon='1/' + '1' + '0' * 40)
+    add('qr/3x3/epsilon=1e-40, last column of magnitude 1e-16/D2,P1', 'h_qr', o={'exact_eval': True}, M=3, N=3, D=2, P=1, epsilon='1/' + '1' + '0' * 40)
     W = {'dirty_out': True}
     add('qr/2x2/out= reused workspace/D3,P1', 'h_qr', o=W, M=2, N=2, D=3, P=1)
     add('qr/3x2/out= reused workspace/D2,P2', 'h_qr', o=W, M=3, N=2, D=2, P=2)
